@@ -309,15 +309,16 @@ func (p *exeParser) readVarDefs() (vds []*VarDef, err error) {
 }
 
 func (p *exeParser) readVarDef() (vd *VarDef, err error) {
-	vd = &VarDef{}
+	// The $ has just been read, the name starts right after it. Reading the
+	// name moves the scanner past the name, to the next line if the name ends
+	// its line.
+	vd = &VarDef{line: p.line, col: p.col + 1}
 	if vd.Name, err = p.readToken(); err != nil {
 		return
 	}
 	if len(vd.Name) == 0 {
 		return nil, parseError(p.line, p.col, "variable name missing")
 	}
-	vd.line = p.line
-	vd.col = p.col - len(vd.Name)
 	var b byte
 	if b, err = p.skipSpace(); err != nil {
 		return nil, err
